@@ -34,6 +34,12 @@ var vC03Catalogue = []vDelimPattern{
 	/*17*/ {toks: []vTok{vL("/A/"), vN("Xy")}, lens: []int{3, 4, 5}},
 	/*18*/ {toks: []vTok{vL("/a/"), vO("x"), vL("/")}, lens: []int{2, 3, 4, 5}},
 	/*19*/ {toks: []vTok{vL("/api/"), vN("v"), vL("/u/"), vO("id")}, lens: []int{6, 7, 8, 9}},
+	// greedy parameters whose delimiter occurs several times in one later literal
+	/*20*/ {toks: []vTok{vL("/"), vStarTok, vL("/"), vN("a"), vL("/b/"), vN("c")}, lens: []int{5, 6, 7, 8}},
+	/*21*/ {toks: []vTok{vL("/f/"), vPlusTok, vL("/"), vN("id"), vL("/m/"), vN("k")}, lens: []int{8, 9, 10}},
+	/*22*/ {toks: []vTok{vL("/"), vStarTok, vL("-"), vN("a"), vL("--"), vN("b")}, lens: []int{5, 6, 7}},
+	/*23*/ {toks: []vTok{vL("/"), vPlusTok, vL("/x/y/"), vStarTok}, lens: []int{6, 7, 8}},
+	/*24*/ {toks: []vTok{vL("/"), vStarTok, vL(".a.b")}, lens: []int{5, 6, 7}},
 }
 
 func (p *vDelimPattern) text() string {
